@@ -167,6 +167,13 @@ def row_flags(res, sc, genome, ctx, case, tag):
             ctx.violation("C18:spliced-row-flagged-Unspliced", {"row": r["raw"][:300]}, case)
             continue
         if r["strand"] not in ("+", "-"):
+            # no reported strand: whatever reading of the statement one takes, True needs every intron to be canonical
+            # on one of the two strands at least
+            if c == "True" and not all(canon.all_canonical(genome[r["chr"]], [i], "+") or
+                                       canon.all_canonical(genome[r["chr"]], [i], "-") for i in introns):
+                ctx.violation("C18:unstranded-row-flagged-canonical-with-an-intron-canonical-on-neither-strand",
+                              {"read": r["read_id"], "reported": c,
+                               "sites": [canon.sites(genome[r["chr"]], i) for i in introns], "run": tag}, case)
             ctx.grey += 1
             continue
         exp = canon.all_canonical(genome[r["chr"]], introns, r["strand"])
